@@ -449,6 +449,65 @@ def map_backup(ctx: Ctx) -> None:
         ctx.ob(d, n, both, f"original and backup are registered in `{m.twin}` in both directions", sel="backup:bidirectional")
 
 
+@rule("MAP-TWIN-SYM-1", props=["C08"], floor=1)
+def map_twin_sym(ctx: Ctx) -> None:
+    """the original↔backup pairing is symmetric: entries are removed from the twin map only in
+    pairs (both directions in the same block), never one direction alone"""
+    d = _map_def(ctx)
+    m = MapShape(ctx, d)
+    if not m.twin:
+        ctx.ob(d, None, True, "no twin map: nothing to keep symmetric", sel="twin:sym")
+        return
+    cfg = m.cfg
+    removals = []
+    for n in d.own_nodes():
+        if isinstance(n, ast.Delete):
+            for t in n.targets:
+                if isinstance(t, ast.Subscript) and isinstance(t.value, ast.Name) and t.value.id == m.twin:
+                    removals.append((n, t.slice))
+        elif isinstance(n, ast.Call) and isinstance(n.func, ast.Attribute) and isinstance(n.func.value, ast.Name) and n.func.value.id == m.twin and n.func.attr in ("pop", "popitem", "clear"):
+            removals.append((n, n.args[0] if n.args else None))
+    if not removals:
+        ctx.ob(d, None, True, f"`{m.twin}` entries are never removed", sel="twin:sym")
+        return
+    for n, key in removals:
+        if isinstance(n, ast.Call) and n.func.attr == "clear":
+            ctx.ob(d, n, True, "clearing the whole twin map keeps it symmetric", sel="twin:sym:clear", nontrivial=False)
+            continue
+        st = cfg.nodes[cfg.node_of(n)].stmt
+        block = _block_of(d, st)
+        keys = set()
+        for st2 in block:
+            for x in walk_own(st2, include_root=True):
+                if isinstance(x, ast.Delete):
+                    for t in x.targets:
+                        if isinstance(t, ast.Subscript) and isinstance(t.value, ast.Name) and t.value.id == m.twin:
+                            keys.add(unparse(t.slice))
+                elif isinstance(x, ast.Call) and isinstance(x.func, ast.Attribute) and isinstance(x.func.value, ast.Name) and x.func.value.id == m.twin and x.func.attr == "pop" and x.args:
+                    keys.add(unparse(x.args[0]))
+        # the two keys of one pair: k and the name bound to twin.get(k) / twin[k] / twin.pop(k)
+        kname = unparse(key) if key is not None else None
+        partner_ok = False
+        at = cfg.node_of(n)
+        for other in keys - {kname}:
+            # `other` was looked up from kname, or kname from other
+            for a, b in ((kname, other), (other, kname)):
+                for s_ in m.fl.rdefs(b, at) if b and b.isidentifier() else []:
+                    if s_.value is not None and m.twin in unparse(s_.value) and a and a in unparse(s_.value):
+                        partner_ok = True
+                # the removal itself may bind the partner: b = twin.pop(a)
+                if isinstance(st, ast.Assign) and isinstance(st.targets[0], ast.Name) and st.targets[0].id == b and a and a in unparse(st.value):
+                    partner_ok = True
+        ctx.ob(
+            d,
+            n,
+            partner_ok,
+            f"`{unparse(n, 40)}` removes one direction of an original↔backup pair; the other direction must be removed in the same block"
+            + ("" if partner_ok else " — it is not: when the twin finishes later, `del` of the missing entry raises KeyError (the map crashes for a reason other than a task failure)"),
+            sel=f"twin:sym:{unparse(n, 30)}",
+        )
+
+
 @rule("RETRY-1", props=["C08"], floor=2)
 def retry(ctx: Ctx) -> None:
     """thread executor: the task function is wrapped in a retrier with reraise=True and
